@@ -222,6 +222,14 @@ def run(ctx):
             chk.ob('T4', 'no-overflow[%s]' % c['callee'], bad is None, (bad or c).where(), P.name,
                    'the converted number takes part in signed arithmetic %s without a range check: results wrap, so the '
                    'value is not monotone in the number' % (render(bad) if bad is not None else ''))
+    # the conversion routine accepts more than "digits" (white space, a sign): what it is given must be digits
+    for c in P.calls():
+        if c.get('callee') in TEXT_TO_INT:
+            okd, why = digits_only_input(P, c)
+            chk.ob('T4', 'digits-only-input[%s]' % c['callee'], okd, c.where(), P.name,
+                   '%s also accepts leading white space and a sign, and its input %s: "-1" or " 300" are then taken as '
+                   'numbers (a negative one wraps to the maximum) instead of leaving the default' % (c['callee'], why),
+                   how=why)
     # ---- T5 --------------------------------------------------------------------------------------
     sec = [c for c in CB.calls('strcmp') if any(strip(a).k == 'StringLiteral' and strip(a).get('s') == 'snoopy' for a in c.ch[1:])]
     ok = len(sec) == 1
@@ -246,9 +254,21 @@ def run(ctx):
            'the callback writes %s directly' % sorted(direct))
     allowed_prefix = ('snoopy_configfile_parseValue_', 'snoopy_configuration_setDefaults', 'snoopy_configuration_dtor',
                       'snoopy_configfile_load', 'snoopy_configuration_setUninitialized')
+    # the error handler switches error logging off while it emits its own record and on again
+    # afterwards (re-entrancy guard, C03 B6): one field, restored on the only path through it
+    allowed_fields = {'snoopy_error_handler': {'error_logging_enabled'}}
     extra = []
     for f in prog.functions:
         st = field_stores(f)
+        if f.name in allowed_fields and set(st) <= allowed_fields[f.name]:
+            restored = True
+            for fld, nodes in st.items():
+                last = max(nodes, key=lambda n: (n.get('line') or 0, n.id))
+                v = strip(last.ch[1]).get('v') if last.k == 'BinaryOperator' else None
+                restored = restored and v == common.macro_value(ctx.repo, 'SNOOPY_TRUE') and \
+                    C.always_followed(f, nodes[0], lambda e, l=last: e is l) if len(nodes) > 1 else False
+            if restored:
+                continue
         if st and not f.name.startswith(allowed_prefix):
             extra.append((f, sorted(st)))
     chk.ob('T5', 'configuration-writers', not extra, extra[0][0].where() if extra else '', '',
@@ -439,3 +459,92 @@ def quote_rule(ctx, prog):
                how='both ends equal %s on every path to the cut' % sorted(map(chr, same)))
     if n == 0:
         raise AnalysisBroken('no quote-stripping store found in snoopy_ini_parse_stream')
+
+
+def digits_only_input(P, call):
+    """the text handed to a strto*/ato* conversion starts with a decimal digit or is empty, on every path:
+    (a) a local buffer every store into which writes 0 or a character that has just passed isdigit(), or
+    (b) a string whose first character passed isdigit() / that passed the digits-only helper."""
+    src = arg(call, 0)
+    d = decl_of(src)
+    if d is None:
+        return False, 'is not a plain variable (%s)' % render(src)
+    DIGIT_TESTS = ('isdigit',)
+
+    def guarded(target_elem, expr_text, ptr_ids):
+        """forward dataflow: True when every path to target_elem crosses the true edge of isdigit(expr)
+        after the last modification of the pointer(s) expr is built from"""
+        def is_test(cond):
+            c = strip(cond)
+            neg = False
+            while c is not None and c.k == 'UnaryOperator' and c['op'] == '!':
+                neg = not neg
+                c = strip(c.ch[0])
+            if c is not None and c.k == 'BinaryOperator' and c['op'] in ('!=', '==') and any(strip(x).get('v') == 0 for x in c.ch):
+                other = [x for x in c.ch if strip(x).get('v') != 0]
+                if other:
+                    if c['op'] == '==':
+                        neg = not neg
+                    c = strip(other[0])
+            ct = common.ctype_test(c) if c is not None else None
+            if ct is not None and ct[0] == 'digit' and ct[1] is not None and render(ct[1]).strip('() ') == expr_text:
+                return True, neg
+            return False, False
+
+        def transfer(st, e):
+            if e.k == 'UnaryOperator' and e.get('op') in ('++', '--') and (decl_of(e.ch[0]) or {}).get('id') in ptr_ids:
+                return False
+            if e.k in ('BinaryOperator', 'CompoundAssignOperator') and (e.get('op') == '=' or e.k == 'CompoundAssignOperator') and \
+                    strip(e.ch[0]).k == 'DeclRefExpr' and (decl_of(e.ch[0]) or {}).get('id') in ptr_ids:
+                return False
+            return st
+
+        def edge(st, blk, si):
+            if blk.cond is not None and len(blk.all_succs) == 2:
+                t, neg = is_test(blk.cond)
+                if t:
+                    true_edge = 1 if neg else 0
+                    return True if si == true_edge else st
+            return st
+        ins = C.forward_dataflow(P, False, transfer, lambda a, b: a and b, edge_transfer=edge)
+        for bid, st in ins.items():
+            if st is None:
+                continue
+            for e in P.blocks[bid].elems:
+                if e is target_elem or any(x is target_elem for x in e.walk()):
+                    return st
+                st = transfer(st, e)
+        return False
+    decls = {x['id']: x for x in P.local_decls()}
+    x = decls.get(d['id'])
+    if x is not None and ('arrayLen' in x or x.get('vla') or (x.get('ct') or '').startswith('char [')):
+        # (a) local buffer
+        from engine.dataflow import PtrTaint
+        pt = PtrTaint(P, lambda n: False, {d['id']})
+        if any(True for cl, i, a in pt.pointer_args() if cl is not call and not _const_param(cl, i)):
+            return False, 'is a buffer also filled by another call'
+        stores = pt.stores()
+        if not stores:
+            return False, 'is a buffer nothing is stored into'
+        for st in stores:
+            if st.k != 'BinaryOperator' or st['op'] != '=':
+                return False, 'is modified by %s' % render(st)
+            r = strip(st.ch[1])
+            if r.get('v') == 0:
+                continue
+            ptrs = {n['ref']['id'] for n in r.walk() if n.k == 'DeclRefExpr' and n['ref']['kind'] in ('var', 'parm')
+                    and (n.get('ct') or '').rstrip().endswith('*')}
+            if r.k not in ('UnaryOperator', 'ArraySubscriptExpr') or not guarded(st, render(r).strip('() '), ptrs):
+                return False, 'receives %s, which has not just passed isdigit()' % render(r)
+        return True, 'a local buffer that only receives characters that passed isdigit(), and the terminator'
+    # (b) a string variable: its first character passed isdigit()
+    for text in ('*%s' % d['name'], '%s[0]' % d['name']):
+        if guarded(call, text, {d['id']}):
+            return True, 'first character passed isdigit()'
+    return False, 'is the unchecked text %s' % render(src)
+
+
+def _const_param(call, i):
+    from engine.statics import _pointee_const
+    pt = call.get('calleeParamTypes') or []
+    return i < len(pt) and _pointee_const(pt[i])
